@@ -200,6 +200,10 @@ package htlcswitch
 //@   site call NextLocalHtlcIndex: assert arg(0) == activeChannel
 //@   // every non-pending channel other than the local source gets trimmed (or the function fails)
 //@   loop 0 step activeChannel.IsPending || called(ShortChanID) && (ret(ShortChanID) == hop.Source || called(TrimOpenCircuits))
+//@   // ... of the channels the database reports open at start-up, each in turn
+//@   site call ShortChanID as channel-in-hand: assert arg(0) == activeChannel && 0 <= rangeindex + 1 && rangeindex + 1 < len(retn(FetchAllOpenChannels, 0)) &&
+//@        activeChannel == retn(FetchAllOpenChannels, 0)[rangeindex + 1] && retn(FetchAllOpenChannels, 1) == nil
+//@   ensures result == nil ==> called(FetchAllOpenChannels) && retn(FetchAllOpenChannels, 1) == nil
 //@
 //@ func (cm *circuitMap) OpenCircuits
 //@   props C07
